@@ -23,6 +23,7 @@ func runC05(c *core.Ctx) {
 	c.RuleDoc("R05.1", "typed errors only (no raw error leaves an FS-level entry point)")
 	c.RuleDoc("R05.2", "path fields in the caller's namespace; inner/OS-namespace errors translated with the right pair")
 	c.RuleDoc("R05.3", "mount translator is expansive")
+	c.RuleDoc("R05.6", "a write-back error is wrapped under the path of the record that was written")
 	c.RuleDoc("R05.5", "cutting a directory prefix handles the directory itself")
 	c.RuleDoc("R05.4", "no path field of a PathError/LinkError can be the empty string")
 	for _, p := range c.Progs {
@@ -52,12 +53,14 @@ func runC05(c *core.Ctx) {
 		r05Expansive(c, p, eng)
 		r05NonEmpty(c, p)
 		r05TrimHandlesRoot(c, p)
+		r05SaveNamesRecord(c, p)
 	}
 	c.Floor("R05.1", 60)
 	c.Floor("R05.2", 60)
 	c.Floor("R05.3", 1)
 	c.Floor("R05.4", 35)
 	c.Floor("R05.5", 1)
+	c.Floor("R05.6", 3)
 }
 
 func nameParamIdx(fn *ssa.Function) []int {
@@ -567,5 +570,117 @@ func r05TrimHandlesRoot(c *core.Ctx, p *load.Program) {
 			c.Check(handled, "R05.5", key, p.Pos(cl.Pos()), "the case 'the path is the directory itself' is answered before the prefix is cut",
 				fmt.Sprintf("%s cuts %s + \"/\" off %s without having handled %s == %s: when the failing path is the directory itself, TrimPrefix leaves it as it is and the caller is told the inner name (the view's base directory) instead of \".\"", fname(fn), vname(y), vname(x), vname(x), vname(y)))
 		})
+	}
+}
+
+// r05SaveNamesRecord (R05.6): in the key-value FS, the error of writing a record back (save of a record constructed or
+// looked up in the same function) that is wrapped into a *PathError by the package's wrapper is wrapped under the
+// path of THAT record — the string the record was constructed / looked up with. MkdirAll("a/b/c/d") whose store
+// refuses "a/b" must name "a/b" (os.MkdirAll names the directory that failed), not the requested path.
+func r05SaveNamesRecord(c *core.Ctx, p *load.Program) {
+	sh := findKVShape(p)
+	if sh == nil || sh.saveFn == nil {
+		c.Hard("anchor: keyvalue.FS shape (save)")
+		return
+	}
+	isWrapper := func(fn *ssa.Function) (pathIdx, errIdx int, ok bool) {
+		if fn == nil || !p.InModule(fn) || fn.Signature.Results().Len() != 1 || !ssax.IsErrorType(fn.Signature.Results().At(0).Type()) {
+			return 0, 0, false
+		}
+		pathIdx, errIdx = -1, -1
+		strs := 0
+		for i, prm := range fn.Params {
+			switch {
+			case isStr(prm.Type()):
+				strs++
+				pathIdx = i // the last string parameter before the error: (op, path, err)
+			case ssax.IsErrorType(prm.Type()):
+				errIdx = i
+			}
+		}
+		if strs != 2 || errIdx < 0 {
+			return 0, 0, false
+		}
+		// constructs a PathError
+		made := false
+		ssax.Instrs(fn, func(ins ssa.Instruction) {
+			if a, ok := ins.(*ssa.Alloc); ok && strings.HasSuffix(a.Type().String(), "fs.PathError") {
+				made = true
+			}
+		})
+		return pathIdx, errIdx, made
+	}
+	passThrough := func(fn *ssa.Function) bool {
+		if fn == nil || !p.InModule(fn) || fn.Signature.Results().Len() != 1 || !ssax.IsErrorType(fn.Signature.Results().At(0).Type()) {
+			return false
+		}
+		if fn.Signature.Params().Len() != 1 || !ssax.IsErrorType(fn.Signature.Params().At(0).Type()) {
+			return false
+		}
+		return true
+	}
+	n := 0
+	for _, fn := range pkgFuncs(p, "keyvalue") {
+		ord := ordinals{}
+		ssax.Instrs(fn, func(ins ssa.Instruction) {
+			cl, ok := ins.(*ssa.Call)
+			if !ok || ssax.StaticCallee(cl) != sh.saveFn {
+				return
+			}
+			base := cl.Call.Args[0]
+			if b, _, ok := ssax.FieldLoad(base); ok {
+				base = b
+			}
+			var recPath ssa.Value
+			if ctor, ok := base.(*ssa.Call); ok && sh.ctorFns[ssax.StaticCallee(ctor)] {
+				for _, a := range ctor.Call.Args {
+					if isStr(a.Type()) {
+						recPath = a
+					}
+				}
+			} else if lp := sh.lookupPathOf(base, 0); lp != nil {
+				recPath = lp
+			}
+			if recPath == nil {
+				return
+			}
+			// follow the error forward to wrappers
+			seen := map[ssa.Value]bool{}
+			var follow func(v ssa.Value, depth int)
+			follow = func(v ssa.Value, depth int) {
+				if v == nil || seen[v] || depth > 6 || v.Referrers() == nil {
+					return
+				}
+				seen[v] = true
+				for _, r := range *v.Referrers() {
+					switch x := r.(type) {
+					case *ssa.Phi:
+						follow(x, depth+1)
+					case *ssa.Call:
+						callee := ssax.StaticCallee(x)
+						if passThrough(callee) {
+							follow(x, depth+1)
+							continue
+						}
+						pi, ei, ok := isWrapper(callee)
+						if !ok {
+							continue
+						}
+						args := x.Call.Args
+						if ei >= len(args) || args[ei] != v {
+							continue
+						}
+						n++
+						key := fname(fn) + "|" + ord.next("save-error-names-the-record")
+						c.Check(sameVar(args[pi], recPath) || args[pi] == recPath, "R05.6", key, p.Pos(x.Pos()), "the write-back error is wrapped under the path of the record that was written",
+							fmt.Sprintf("%s wraps the error of writing the record %s back under another path (%s): when the store refuses an intermediate directory, the *PathError names the path the caller asked for instead of the directory whose creation failed (os.MkdirAll names the failing directory)", fname(fn), vname(recPath), vname(args[pi])))
+					}
+				}
+			}
+			follow(cl, 0)
+		})
+	}
+	if n == 0 {
+		c.Hard("anchor: no write-back error reaches the package's PathError wrapper")
 	}
 }
